@@ -27,7 +27,7 @@
    loosened threshold in the tree under test is judged against the documented accuracy */
 #define DOC_PCACONVERGENCE 1e-10
 
-static long ncases(int tier) { return tier ? 60000 : 1500; }
+static long ncases(int tier) { return tier ? 120000 : 6000; }
 
 /* n x r matrix with orthonormal columns (all orthogonal to the ones-vector when centre != 0) */
 static void rand_orthonormal_cols(vh_ctx *c, ldm *Q, int centre)
